@@ -50,7 +50,7 @@ void sched_hook(const char *name) {
 
 struct TaskRec {
   tbox::cabinet::Token token;
-  int prio = 0; bool has_cb = false; int epoch = 0;
+  int prio = 0; bool has_cb = false; int epoch = 0; bool on_alt_loop = false;   // WorkThread: callback explicitly directed to a second loop
   uint64_t submit_stamp = 0;      // taken before execute() is called
   uint64_t accepted_stamp = 0;    // taken after execute() has returned (the task is certainly queued from here on)
   std::atomic<uint64_t> body_start{0}, body_end{0}, cb_stamp{0};
@@ -68,6 +68,7 @@ struct Shared {
   std::atomic<bool> cleanup_started{false};
   std::atomic<int> running{0}, max_running{0};
   std::thread::id main_tid;
+  std::atomic<bool> alt_ready{false}; std::thread::id alt_tid;   // second loop (own thread) for WorkThread::execute(.., .., loop)
   uint64_t next() { return stamp.fetch_add(1) + 1; }
 };
 
@@ -77,7 +78,7 @@ struct PoolAdapter {
   ThreadPool p;
   explicit PoolAdapter(Loop *l) : p(l) {}
   bool init(int mn, int mx) { return p.initialize(mn, mx); }
-  tbox::cabinet::Token exec(std::function<void()> body, std::function<void()> cb, bool with_cb, int prio) {
+  tbox::cabinet::Token exec(std::function<void()> body, std::function<void()> cb, bool with_cb, int prio, Loop *) {
     return with_cb ? p.execute(std::move(body), std::move(cb), prio) : p.execute(std::move(body), prio); }
   int status(tbox::cabinet::Token t) { return (int)p.getTaskStatus(t); }
   int cancel(tbox::cabinet::Token t) { return p.cancel(t); }
@@ -89,7 +90,8 @@ struct WorkAdapter {
   std::unique_ptr<WorkThread> w; Loop *loop;
   explicit WorkAdapter(Loop *l) : loop(l) {}
   bool init(int, int) { w.reset(new WorkThread(loop)); return true; }
-  tbox::cabinet::Token exec(std::function<void()> body, std::function<void()> cb, bool with_cb, int) {
+  tbox::cabinet::Token exec(std::function<void()> body, std::function<void()> cb, bool with_cb, int, Loop *explicit_loop) {
+    if (with_cb && explicit_loop) return w->execute(std::move(body), std::move(cb), explicit_loop);
     return with_cb ? w->execute(std::move(body), std::move(cb)) : w->execute(std::move(body)); }
   int status(tbox::cabinet::Token t) { return (int)w->getTaskStatus(t); }
   int cancel(tbox::cabinet::Token t) { return w->cancel(t); }
@@ -113,6 +115,13 @@ std::string run_impl(const Scenario &s, CaseInfo &info) {
   Shared sh; sh.main_tid = std::this_thread::get_id();
   for (auto &g : sh.gate_open) g = false;
   Loop *loop = Loop::New();
+  // WorkThread only: a second loop on its own thread; some tasks direct their completion callback to it
+  Loop *alt = nullptr; std::thread alt_thread;
+  if (!A::kIsPool) {
+    alt = Loop::New();
+    alt_thread = std::thread([&] { sh.alt_tid = std::this_thread::get_id(); alt->runNext([&] { sh.alt_ready = true; }, "ready"); alt->runLoop(Loop::Mode::kForever); });
+    while (!sh.alt_ready.load()) std::this_thread::yield();
+  }
   auto pump = [&] { loop->runNext([] {}, "pump"); loop->runLoop(Loop::Mode::kOnce); };
   std::string err;
   char buf[300];
@@ -164,6 +173,7 @@ std::string run_impl(const Scenario &s, CaseInfo &info) {
           int i = sh.n; TaskRec &t = sh.t[i];
           int prio = (int)op.in(0, -3, 3); int kind = (int)op.in(1, 0, 3); unsigned us = (unsigned)op.in(2, 0, 400); int gate = (int)op.in(3, 0, kGates - 1);
           t.has_cb = op.in(4, 0, 1) == 1; t.epoch = epoch;
+          t.on_alt_loop = !A::kIsPool && t.has_cb && op.in(5, 0, 2) == 0;
           t.prio = std::max(THREAD_POOL_PRIO_MIN, std::min(THREAD_POOL_PRIO_MAX, prio));
           if (!A::kIsPool) t.prio = 0;
           Shared *shp = &sh;
@@ -177,14 +187,15 @@ std::string run_impl(const Scenario &s, CaseInfo &info) {
             shp->running.fetch_sub(1);
             t.body_end.store(shp->next());
           };
-          auto cb = [shp, i] {
+          bool on_alt = t.on_alt_loop;
+          auto cb = [shp, i, on_alt] {
             TaskRec &t = shp->t[i];
-            if (std::this_thread::get_id() != shp->main_tid) t.cb_off_loop_thread = true;
+            if (std::this_thread::get_id() != (on_alt ? shp->alt_tid : shp->main_tid)) t.cb_off_loop_thread = true;
             t.cb_stamp.store(shp->next()); t.cb_count.fetch_add(1);
           };
           sh.n++;                      // published before execute() so that the body may touch it
           t.submit_stamp = sh.next();
-          t.token = a.exec(body, cb, t.has_cb, prio);
+          t.token = a.exec(body, cb, t.has_cb, prio, t.on_alt_loop ? alt : nullptr);
           t.accepted_stamp = sh.next();
           if (t.token.isNull()) { snprintf(buf, sizeof buf, "op %zu: execute() returned a null token on an initialised pool", k); err = buf; }
           for (int j = 0; j < i; ++j) if (sh.t[j].epoch == epoch && sh.t[j].prio != t.prio) prio_mix = true;
@@ -245,6 +256,7 @@ std::string run_impl(const Scenario &s, CaseInfo &info) {
   }
   for (int i = 0; i < 3; ++i) pump();
   delete loop;     // drains whatever is still queued on the loop
+  if (alt) { alt->runInLoop([alt] { alt->exitLoop(); }, "exit"); alt_thread.join(); delete alt; }
   if (!err.empty()) return err;
 
   // ---- history oracle
@@ -260,7 +272,7 @@ std::string run_impl(const Scenario &s, CaseInfo &info) {
     int want_cb = (t.has_cb && bc == 1) ? 1 : 0;
     if (cc != want_cb) { snprintf(buf, sizeof buf, "task %d: completion callback ran %d time(s), expected %d (body ran %d time(s), has_cb=%d)", i, cc, want_cb, bc, (int)t.has_cb); return buf; }
     if (cc == 1) {
-      if (t.cb_off_loop_thread.load()) { snprintf(buf, sizeof buf, "task %d: completion callback ran on a thread other than the loop thread", i); return buf; }
+      if (t.cb_off_loop_thread.load()) { snprintf(buf, sizeof buf, "task %d: completion callback ran on a thread other than the thread of the loop it was directed to", i); return buf; }
       if (t.cb_stamp.load() < t.body_end.load()) { snprintf(buf, sizeof buf, "task %d: completion callback ran before the body returned", i); return buf; }
     }
   }
@@ -294,6 +306,7 @@ std::string run_impl(const Scenario &s, CaseInfo &info) {
   info.cls_if(order_checked, "pick_order_checked");
   info.cls_if(order_checked && prio_mix, "pick_order_mixed_priorities");
   info.cls_if(epoch > 0, "reinitialised");
+  { bool any_alt = false; for (int i = 0; i < sh.n; ++i) if (sh.t[i].on_alt_loop && sh.t[i].cb_count.load()) any_alt = true; info.cls_if(any_alt, "callback_on_explicit_second_loop"); }
   info.cls_if(n_cancel_ok > 0, "cancel_succeeded");
   info.cls_if(g_sched_hits.load() > 0, "sched_point_delay_applied");
   info.cls_if(sh.max_running.load() >= 2, "bodies_in_parallel");
@@ -306,7 +319,7 @@ rc::Gen<Scenario> gen_common(bool pool) {
   auto tok = range(0, kMaxTasks - 1);
   auto body = rc::gen::weightedOneOf<int64_t>({{4, rc::gen::just<int64_t>(0)}, {3, rc::gen::just<int64_t>(1)}, {3, rc::gen::just<int64_t>(2)}});
   auto opg = rc::gen::weightedOneOf<Op>({
-    {10, mkop(EXEC, {range(-3, 3), body, rc::gen::weightedOneOf<int64_t>({{3, range(0, 40)}, {1, range(0, 400)}}), range(0, kGates - 1), range(0, 1)})},
+    {10, mkop(EXEC, {range(-3, 3), body, rc::gen::weightedOneOf<int64_t>({{3, range(0, 40)}, {1, range(0, 400)}}), range(0, kGates - 1), range(0, 1), range(0, 2)})},
     {5, mkop(STATUS, {tok, range(0, 2)})},
     {4, mkop(CANCEL, {tok, range(0, 2)})},
     {1, mkop(SNAP, {})},
@@ -327,7 +340,7 @@ rc::Gen<Scenario> gen_common(bool pool) {
 SubDef mk(const char *name, bool pool) {
   SubDef d; d.name = name;
   d.op_names = {"cfg", "sched", "exec", "status", "cancel", "snap", "open", "wait", "pump", "cleanup", "init", "quiesce"};
-  d.op_arity = {3, 3, 5, 2, 2, 0, 1, 1, 0, 0, 1, 0};
+  d.op_arity = {3, 3, 6, 2, 2, 0, 1, 1, 0, 0, 1, 0};
   d.nt_rule = "history with tasks where a status/cancel query overlapped a worker's pick-up (task started during the call), or cleanup was called with >= 1 running and >= 1 waiting task, or the single-worker pick order was decided over mixed priorities, or a cancel succeeded after a re-initialise";
   if (pool) d.run = run_impl<PoolAdapter>; else d.run = run_impl<WorkAdapter>;
 #ifndef VERIF_ENGINE_FUZZ
